@@ -1,7 +1,9 @@
 """Per-property harness sets.  files: (parent module in the crate, harness source under /verif/harness)."""
 import gen
+import c19
 
 PROPS = {
+    "C19": dict(files=[], runner=c19.run_c19),
     "C16": dict(
         files=[("op", "c16_op.rs")],
         generators=[gen.gen_c16],
